@@ -142,6 +142,8 @@ type report struct {
 	Violations         []Violation    `json:"violations"`
 	Samples            []any          `json:"samples"`
 	Panics             int            `json:"panics"`
+	Reevaluated        int            `json:"reevaluated"`
+	Unstable           []any          `json:"unstable"` // ops whose result changed when evaluated again at the end of the run
 }
 
 func resultKind(res any) string {
@@ -183,6 +185,15 @@ func main() {
 	rep := report{Property: *prop, Tier: *tier, Seed: *seed, Tags: map[string]int{}, ResultKinds: map[string]int{}}
 	seen := map[[32]byte]bool{}
 	shrunkSig := map[string]bool{}
+	// a sample of the run is evaluated a second time at the very end: the callbacks and codecs under test
+	// are functions of their arguments, so a result that depends on what was called before is a defect
+	// (package-level buffers, pools, caches) even if each single evaluation looks right
+	type kept struct {
+		op  J
+		res []byte
+	}
+	var reservoir []kept
+	nSeen := 0
 	handle := func(c Case) {
 		line := marshal(c.Op)
 		res := normalise(runOp(c.Op))
@@ -228,6 +239,15 @@ func main() {
 			opsW.WriteByte('\n')
 			implW.Write(marshal(stripPrivate(res)))
 			implW.WriteByte('\n')
+		}
+		if first && stableOp(jStr(opN["op"])) && k != "panic" {
+			nSeen++
+			e := kept{c.Op, marshal(stripPrivate(res))}
+			if len(reservoir) < 400 {
+				reservoir = append(reservoir, e)
+			} else if j := int(h[0])<<8 | int(h[1]); j%nSeen < 400 && nSeen > 0 {
+				reservoir[(int(h[2])<<8|int(h[3]))%400] = e
+			}
 		}
 		if len(rep.Samples) < 3 && nontrivial && first {
 			rep.Samples = append(rep.Samples, J{"op": c.Op, "impl": stripPrivate(res)})
@@ -275,6 +295,18 @@ func main() {
 				}()
 				gen(g)
 			}()
+		}
+	}
+	if *replay == "" {
+		for _, e := range reservoir {
+			again := marshal(stripPrivate(normalise(runOp(e.op))))
+			rep.Reevaluated++
+			if !bytes.Equal(again, e.res) && len(rep.Unstable) < 5 {
+				var a, b any
+				json.Unmarshal(e.res, &a)
+				json.Unmarshal(again, &b)
+				rep.Unstable = append(rep.Unstable, J{"op": e.op, "first": a, "again": b})
+			}
 		}
 	}
 	rep.Rule = rules[*prop]
@@ -379,4 +411,15 @@ func shrinkPrefix(prop string, op J, sig string) (J, any, bool) {
 	}
 	best["_shrunk"] = fmt.Sprintf("%d of %d entries of %q", hi, len(full), key)
 	return best, bestRes, true
+}
+
+// stableOp: ops whose result is a function of the op line alone (everything except measurements, real
+// handshakes / stress runs, and wall-clock dependent fields, which are private and stripped anyway).
+func stableOp(name string) bool {
+	for _, p := range []string{"cost.", "mtls.handshake", "mtls.replace_handshake", "mtls.stress", "mtls.race"} {
+		if strings.HasPrefix(name, p) {
+			return false
+		}
+	}
+	return true
 }
